@@ -102,7 +102,9 @@ func (s *scRM) ErrVariants(w *World, q *Req) []replyVariant {
 func (s *scRM) MayDrop(w *World, c *Conn) bool  { return false }
 func (s *scRM) MayStall(w *World, c *Conn) bool { return false }
 
-func (s *scRM) Actions(w *World) []Action {
+// persistActions: the scheduler advances each listed copy's persisted seqno (and, with fail-over faults, lets
+// a copy sit on another history branch for a while).
+func (w *World) persistActions() []Action {
 	c := w.cfg
 	var acts []Action
 	b := w.cl.buckets[c.Bucket]
@@ -143,6 +145,33 @@ func (s *scRM) Actions(w *World) []Action {
 			}
 		}
 	}
+	return acts
+}
+
+// persistAll: everything gets persisted on every listed copy under the current branch, so that what waits at
+// the gate can flow (quiesce phase).
+func (w *World) persistAll() {
+	c := w.cfg
+	b := w.cl.buckets[c.Bucket]
+	w.mu.Lock()
+	for vb := 0; vb < c.NVb; vb++ {
+		v := b.vbs[vb]
+		for r := range v.copies {
+			if b.vbmap[vb][r] < 0 {
+				continue
+			}
+			v.copies[r].UUID = v.failover[0].UUID
+			v.copies[r].Persisted = v.high
+			w.jl(&journal.Ev{K: journal.KPersist, Vb: vb, I: int64(r), U: v.copies[r].UUID, U2: v.copies[r].Persisted, S: "quiesce"})
+		}
+	}
+	w.mu.Unlock()
+}
+
+func (s *scRM) Actions(w *World) []Action {
+	c := w.cfg
+	acts := w.persistActions()
+	b := w.cl.buckets[c.Bucket]
 	if (c.W.Failover > 0 || s.holeVb >= 0) && s.bumps < 2 && w.ready1() {
 		acts = append(acts, Action{ID: "mapbump", W: 1, Do: func() {
 			s.bumps++
@@ -187,21 +216,4 @@ func (s *scRM) MemberActions(w *World, m *Member) []Action {
 	return acts
 }
 
-// OnQuiesce: everything gets persisted on every listed copy under the current branch, so that what waits at the gate can flow.
-func (s *scRM) OnQuiesce(w *World) {
-	c := w.cfg
-	b := w.cl.buckets[c.Bucket]
-	w.mu.Lock()
-	for vb := 0; vb < c.NVb; vb++ {
-		v := b.vbs[vb]
-		for r := range v.copies {
-			if b.vbmap[vb][r] < 0 {
-				continue
-			}
-			v.copies[r].UUID = v.failover[0].UUID
-			v.copies[r].Persisted = v.high
-			w.jl(&journal.Ev{K: journal.KPersist, Vb: vb, I: int64(r), U: v.copies[r].UUID, U2: v.copies[r].Persisted, S: "quiesce"})
-		}
-	}
-	w.mu.Unlock()
-}
+func (s *scRM) OnQuiesce(w *World) { w.persistAll() }
